@@ -8,7 +8,7 @@ received-packet journal may have rotated before `update_largest` runs — docume
 namespace GmQuic.Drv.C04
 open GmQuic.Drv GmQuic.Cost
 
-/-- model cost (iterations + cells) above which the real code is expected to hit the 6 s / 3 GB caps -/
+/-- model cost (iterations + cells) above which the real code is expected to hit the 10 s / 3 GB caps -/
 def costCap : Nat := 10 ^ 9
 
 structure DSt where
